@@ -180,13 +180,27 @@ def lean_setup():
     return r
 
 
+_DRV = None
+
+
 def verifdrv_path():
+    """Build verifdrv (no-op when up to date) and use a private copy of the binary for this
+    process, so a concurrent re-link by another check cannot pull it away mid-run."""
+    global _DRV
+    if _DRV and os.path.exists(_DRV):
+        return _DRV
     p = os.path.join(LEAN, ".lake", "build", "bin", "verifdrv")
-    if not os.path.exists(p):
-        r = lean_setup()
-        if r.returncode != 0:
-            raise BuildError("lake build failed:\n" + r.stdout[-4000:])
-    return p
+    with FileLock("lake"):
+        r = sh(["lake", "build", "verifdrv"], cwd=LEAN, timeout=3600)
+        if r.returncode != 0 or not os.path.exists(p):
+            raise BuildError("lake build verifdrv failed:\n" + r.stdout[-4000:])
+        os.makedirs(CACHE, exist_ok=True)
+        dst = os.path.join(CACHE, "verifdrv_%d" % os.getpid())
+        shutil.copy2(p, dst)
+    _DRV = dst
+    import atexit
+    atexit.register(lambda: os.path.exists(dst) and os.unlink(dst))
+    return _DRV
 
 
 FORBIDDEN = re.compile(r"\bsorry\b|\badmit\b|^\s*axiom\s|native_decide|bv_decide|implemented_by|\bunsafe\s|maxHeartbeats\s+0|ofReduceBool")
